@@ -1,8 +1,19 @@
 #!/bin/bash
-# Offline setup: build every check binary once so that the Go build cache is warm.
+# Offline setup: warm the Go build cache for every check (plain and instrumented builds).
 export GOFLAGS=-mod=mod GOPROXY=off GOSUMDB=off GOTOOLCHAIN=local
 cd /verif/harness || exit 1
 cp /repo/go.sum go.sum
 mkdir -p /verif/bin /verif/evidence /verif/replays
-go build -o /verif/bin/ ./cmd/... || exit 1
+scratch=$(mktemp -d /tmp/verif-setup.XXXXXX)
+trap 'rm -rf "$scratch"' EXIT
+go build -o "$scratch/vrewrite" ./cmd/vrewrite || exit 1
+"$scratch/vrewrite" -out "$scratch/vr" || exit 1
+for d in cmd/*/; do
+  n=$(basename "$d")
+  if [ -f "$d/VSCHED" ]; then
+    go build -overlay "$scratch/vr/overlay.json" -o "$scratch/$n" "./cmd/$n" || exit 1
+  else
+    go build -o "$scratch/$n" "./cmd/$n" || exit 1
+  fi
+done
 echo setup ok
